@@ -42,6 +42,22 @@ def rand_scaled(rng, signed, n):
     return Fraction(4 * b + d, 4)
 
 
+def rand_scaled_wide(rng, f):
+    """a scaled input far outside the range: +-m*2^e with a (up to) 53-bit mantissa, |x| < 2^62 and |x/2^f| < 2^53
+    (the whole core domain, not only the neighbourhood of the format's range)."""
+    for _ in range(20):
+        mb = rng.choice([1, 2, 8, 24, 30, 52, 53, rng.randint(1, 53)])
+        m = rng.getrandbits(mb) | 1 | (1 << (mb - 1))
+        e = rng.randint(-2, 61 - mb) if mb <= 61 else 0
+        x = Fraction(m) * Fraction(2) ** e * rng.choice([1, -1])
+        if rng.random() < 0.3:
+            x += Fraction(rng.choice([1, 2, 3]), 4)      # quarter-LSB offsets (only representable when small)
+        v = x / Fraction(2) ** f
+        if abs(x) < 2 ** 62 and abs(v) < 2 ** 53:
+            return x
+    return Fraction(0)
+
+
 def in_c01_domain(n, f, v, float_sat=False):
     if not (1 <= n <= 52 and -8 <= f <= n + 8):
         return False
